@@ -268,18 +268,18 @@ def post_process(pid, counters, extras, run, replays):
     out = {}
     if pid == "C07":
         if counters.get("hook_crosscheck_failed", 0) > 0:
-            out["harness_error"] = ("hook cross-check failed %d time(s): parse_and_rewrite disagrees with the "
-                                    "public reconstruction path" % counters["hook_crosscheck_failed"])
+            out["soft_error"] = ("hook cross-check failed %d time(s): parse_and_rewrite disagrees with the "
+                                 "public reconstruction path" % counters["hook_crosscheck_failed"])
     if pid == "C08":
         if counters.get("hook_crosscheck_failed", 0) > 0:
-            out["harness_error"] = ("hook cross-check failed %d time(s): roundtrip_with_params with the estimator's own "
-                                    "vector disagrees with the public analysis" % counters["hook_crosscheck_failed"])
+            out["soft_error"] = ("hook cross-check failed %d time(s): roundtrip_with_params with the estimator's own "
+                                 "vector disagrees with the public analysis" % counters["hook_crosscheck_failed"])
     if pid == "C14":
         no = [k for k in counters if k.endswith(":no_overlap_observed")]
         tot = sum(v for k, v in counters.items() if k.endswith(":overlapping_call_pairs"))
         out["coverage"] = {"overlapping_call_pairs_total": tot}
         if tot == 0 and counters.get("evaluations", 0) > 0:
-            out["harness_error"] = "no overlapping call pair was observed in any concurrent phase"
+            out["soft_error"] = "no overlapping call pair was observed in any concurrent phase (machine too loaded?)"
     if pid == "C04":
         if counters.get("premise_false_version_bumped", 0) > 0:
             out["coverage"] = {"explanation": "premise false: the current tree declares different format version numbers "
